@@ -5,7 +5,7 @@
 # so several of these can run side by side).  With SEED_INPLACE=1 the patch is applied to /repo itself and reverted
 # afterwards (git -C /repo apply … ; git -C /repo checkout -- .), which is how the brief describes it.
 PATCH=$1; TIER=$2; shift 2
-cd /verif || exit 2
+cd "$(dirname "$0")/.." || exit 2; HERE=$(pwd)
 if [ -n "$SEED_INPLACE" ]; then
   if [ -n "$(git -C /repo status --porcelain --untracked-files=no)" ]; then echo "/repo is dirty; refusing"; exit 2; fi
   git -C /repo apply "$PATCH" || { echo "PATCH DOES NOT APPLY: $PATCH"; exit 3; }
